@@ -2,6 +2,7 @@ package c04
 
 import (
 	"deps.dev/util/semver"
+	"strings"
 )
 
 var semverSys = map[string]semver.System{
@@ -69,6 +70,44 @@ func bb(ss ...string) [][]byte {
 func init() {
 	vsent := func(g *genCtx, sys string) []byte { return []byte(versionSentence(g.r, sys)) }
 	csent := func(g *genCtx, sys string) []byte { return []byte(constraintOrSet(g.r, sys)) }
+	// vpair: two versions to compare. In half of the draws the second is the
+	// first one grown or cut by a trailing segment (1.0+abc / 1.0+abc.1, 1.2 /
+	// 1.2.0, rc.1 / rc), respelt in the other case, or the same text: pairs that
+	// agree over the whole of the shorter one are where element-wise loops end.
+	vpair := func(g *genCtx, sys string) [][]byte {
+		a := versionSentence(g.r, sys)
+		if g.r.Intn(2) == 0 {
+			return [][]byte{[]byte(a), []byte(versionSentence(g.r, sys))}
+		}
+		b := a
+		switch g.r.Intn(7) {
+		case 0:
+			b = a + "." + []string{"0", "1", "a", "00"}[g.r.Intn(4)]
+		case 1:
+			if i := strings.LastIndexAny(a, ".-_"); i > 0 {
+				b = a[:i]
+			}
+		case 2:
+			if strings.Contains(a, "+") {
+				b = a + "." + []string{"1", "abc", "0"}[g.r.Intn(3)]
+			} else {
+				b = a + "+" + []string{"abc", "abc.1", "1", "1.a.2"}[g.r.Intn(4)]
+				a += "+" + []string{"abc", "abc.1", "1"}[g.r.Intn(3)]
+			}
+		case 3:
+			b = strings.ToUpper(a)
+		case 4:
+			if i := strings.IndexAny(a, "+-"); i > 0 {
+				b = a[:i]
+			}
+		case 5:
+			b = a + []string{"-rc", "-rc.1", ".post1", ".dev0", "-SNAPSHOT", "-1"}[g.r.Intn(6)]
+		}
+		if g.r.Intn(2) == 0 {
+			a, b = b, a
+		}
+		return [][]byte{[]byte(a), []byte(b)}
+	}
 	// splice: a sentence of another system's grammar (version, constraint or set).
 	splice := func(g *genCtx, sys string, k int) []byte {
 		o := otherSys(g.r, sys)
@@ -119,7 +158,7 @@ func init() {
 	})
 	register(&driver{
 		name: "semver.Compare", systems: sysNames, apis: []string{"semver.System.Compare"},
-		valid:  func(g *genCtx, sys string) [][]byte { return [][]byte{vsent(g, sys), vsent(g, sys)} },
+		valid:  vpair,
 		splice: splice, dict: semverDict, simple: v2, longParts: []int{0, 1},
 		run: func(x *runner, sys string, in []byte) string {
 			p := splitN(in, 2)
@@ -130,7 +169,7 @@ func init() {
 	})
 	register(&driver{
 		name: "semver.Difference", systems: sysNames, apis: []string{"semver.System.Difference", "semver.Diff.String"},
-		valid:  func(g *genCtx, sys string) [][]byte { return [][]byte{vsent(g, sys), vsent(g, sys)} },
+		valid:  vpair,
 		splice: splice, dict: semverDict, simple: v2, longParts: []int{0, 1},
 		run: func(x *runner, sys string, in []byte) string {
 			p := splitN(in, 2)
@@ -185,7 +224,7 @@ func init() {
 	})
 	register(&driver{
 		name: "semver.Version.Compare", systems: sysNames, apis: []string{"semver.Version.Compare", "semver.Version.Difference"},
-		valid:  func(g *genCtx, sys string) [][]byte { return [][]byte{vsent(g, sys), vsent(g, sys)} },
+		valid:  vpair,
 		splice: splice, dict: semverDict, simple: v2, longParts: []int{0}, weight: 3,
 		run: func(x *runner, sys string, in []byte) string {
 			s := semverSys[sys]
